@@ -1189,6 +1189,85 @@ def _digests(Z, objs):
     return [g(Z) for (_n, _o, _t, g) in objs]
 
 
+def _reachable_arrays(x, out, ids, depth=0):
+    """every ndarray (and the id of every container) reachable from x: what the user must NOT overwrite"""
+    import pandas as pd
+    if id(x) in ids or depth > 4:
+        return
+    ids.add(id(x))
+    if isinstance(x, np.ndarray):
+        out.append(x)
+        if x.dtype == object and x.size < 4096:
+            for y in x.ravel().tolist():
+                _reachable_arrays(y, out, ids, depth + 1)
+    elif isinstance(x, (pd.DataFrame, pd.Series)):
+        try:
+            out.append(x.to_numpy(copy=False) if isinstance(x, pd.Series) else x.values)
+        except Exception:
+            pass
+    elif isinstance(x, (list, tuple)):
+        for y in x[:4096]:
+            _reachable_arrays(y, out, ids, depth + 1)
+    elif isinstance(x, dict):
+        for y in list(x.values())[:4096]:
+            _reachable_arrays(y, out, ids, depth + 1)
+    elif hasattr(x, "__dict__") and not isinstance(x, type) and not callable(x):
+        for y in list(vars(x).values()):
+            _reachable_arrays(y, out, ids, depth + 1)
+
+
+def scribble(Z, res):
+    """Session!Scribble: the user overwrites in place the value a call returned.  Only memory that belongs to
+    the result alone is touched: arrays that may share memory with a snapshot array, an array argument or
+    anything reachable from an analysis object (a method may legitimately hand out its state) are left alone.
+    Returns (arrays overwritten, arrays left alone because they alias a tracked object)."""
+    import pandas as pd
+    prot, ids = [], set()
+    W = Z.W
+    for ss in list(W.S.values()) + list(W.ORI.values()):
+        if ss is not None:
+            _reachable_arrays(ss, prot, ids)
+    for a in W.A.values():
+        _reachable_arrays(a, prot, ids)
+    for o in Z.obj.values():
+        _reachable_arrays(o, prot, ids)
+    done = alias = 0
+    stack, seen = [res], set()
+    while stack:
+        x = stack.pop()
+        if id(x) in seen:
+            continue
+        seen.add(id(x))
+        if isinstance(x, (list, tuple)):
+            stack.extend(x)
+        elif isinstance(x, dict):
+            stack.extend(x.values())
+        elif isinstance(x, (pd.DataFrame, pd.Series)):
+            if id(x) in ids:
+                alias += 1
+                continue
+            try:
+                if isinstance(x, pd.DataFrame):
+                    for c in x.columns:
+                        if x[c].dtype.kind in "fciu":
+                            x[c] = -7
+                else:
+                    x[:] = -7
+                done += 1
+            except Exception:
+                pass
+        elif isinstance(x, np.ndarray):
+            if x.dtype == object:
+                stack.extend(x.ravel().tolist()[:4096])
+            if id(x) in ids or any(np.may_share_memory(x, p) for p in prot):
+                alias += 1
+                continue
+            if x.flags.writeable and x.size and x.dtype.kind in "fciubO":
+                x[...] = True if x.dtype.kind == "b" else 7
+                done += 1
+    return done, alias
+
+
 def run_session(job):
     """Executes the steps of one schedule literally, in this (freshly forked) process."""
     import tempfile
@@ -1208,7 +1287,8 @@ def run_session(job):
         Z = Sess(W, sdir)
         cur = _digests(Z, objs)
         out["begin"] = cur
-        for (e, s, v) in job["steps"]:
+        scr = job.get("scr") or [0] * len(job["steps"])
+        for (e, s, v), do_scr in zip(job["steps"], scr):
             name = REG[e - 1]["n"]
             before = _digests(Z, objs)
             rec = {"e": e, "s": s, "v": v, "before": before, "err": None}
@@ -1227,6 +1307,8 @@ def run_session(job):
             rec["wall"] = round(time.time() - t0, 4)
             rec["after"] = _digests(Z, objs)
             rec["cur"] = [Z.h[1].frame(), Z.h[2].frame()]
+            if do_scr and not rec["err"]:
+                rec["scr"] = scribble(Z, res)
             out["calls"].append(rec)
             if rec["err"]:
                 break
@@ -1276,7 +1358,7 @@ def mc_constants(tier, world, mode, impure="none", gen=False):
     return {"Tier": tier, "WorldName": world, "Mode": mode, "Impure": impure, "Gen": gen, "Seed": common.SEED % 1000}
 
 
-NONVACUOUS = [("mutate", "InputsUnchanged"), ("mutate", "RepeatAgrees"), ("cache", "RepeatAgrees"),
+NONVACUOUS = [("alias", "RepeatAgrees"), ("mutate", "InputsUnchanged"), ("mutate", "RepeatAgrees"), ("cache", "RepeatAgrees"),
               ("file", "FileHoldsReturned"), ("state", "StateOnlyByOwner"), ("state", "RepeatAgrees"),
               ("cursor", "CursorOnlyByReader"), ("cursor", "RepeatAgrees")]
 
@@ -1301,6 +1383,9 @@ def model_phase(chk, tier, worlds):
         for w in worlds:
             if tier == "thorough" or w in ("w2", "w3"):
                 jobs[("all3", w)] = ex.submit(gen, w, "all3")
+        for w in worlds:
+            if tier == "thorough" or w in ("w2", "w3"):
+                jobs[("scr", w)] = ex.submit(gen, w, "scr")
         for kind, inv in NONVACUOUS:
             jobs[("imp", kind, inv)] = ex.submit(imp, kind, inv)
         res = {k: f.result() for k, f in jobs.items()}
@@ -1361,14 +1446,18 @@ def validate_world(world, header, records, timeout=3600):
 def select_sessions(tier, cases, rng):
     """quick: every call (entry point x target x variant) of every world at least once as the f of an
     f, g, f schedule - with g the same entry point on the other target where the specification emitted
-    one, and once more with a seeded random g (generated worlds) - plus a seeded sample of the general
-    length-3 words.  thorough: generated worlds: every emitted f, g, f whose g is a first variant (so all
+    one, with g every other entry point of the same analysis object (same family, same target; sample
+    trajectories: one of them), and once more with a seeded random g (generated worlds) - plus a seeded
+    sample of the general length-3 words and every f, Scribble, f.  thorough: generated worlds: every emitted f, g, f whose g is a first variant (so all
     words f, g of length <= 2 over calls x entry points are prefixes) + 5000 general length-3 words per
     world; sample-trajectory worlds: partner + 3 seeded g per call + 300 general words."""
     chosen = []
     for (mode, w), cs in sorted(cases.items()):
         cs = sorted(cs, key=lambda c: json.dumps(c["word"]))
         heavy = w.startswith("s")
+        if mode == "scr":            # every f, Scribble, f
+            chosen += cs
+            continue
         if mode == "all3":
             k = 160 if tier == "quick" else (300 if heavy else 5000)
             chosen += rng.sample(cs, min(len(cs), k))
@@ -1382,8 +1471,13 @@ def select_sessions(tier, cases, rng):
         for f, lst in sorted(byf.items()):
             partner = [c for c in lst if c["word"][1][0] == f[0] and tuple(c["word"][1]) != f]
             other = [c for c in partner if c["word"][1][1] != f[1]]
-            rest = [c for c in lst if c["word"][1][0] != f[0]]
+            fam = REG[f[0] - 1]["fam"]
+            kin = [c for c in lst if fam and c["word"][1][0] != f[0] and REG[c["word"][1][0] - 1]["fam"] == fam
+                   and c["word"][1][1] == f[1]]          # g = another method / the constructor of the SAME analysis object
+            rest = [c for c in lst if c["word"][1][0] != f[0] and c not in kin]
             pick = []
+            if kin:
+                pick += kin if (tier == "thorough" or not heavy) else [rng.choice(kin)]
             if other or partner:
                 pick.append(rng.choice(other or partner))
             if tier == "thorough":
@@ -1416,7 +1510,7 @@ class Reporter:
 
 def execute(chosen, jobs=None):
     import multiprocessing as mp
-    todo = [{"sid": c["sid"], "w": c["w"], "steps": c["steps"]} for c in chosen]
+    todo = [{"sid": c["sid"], "w": c["w"], "steps": c["steps"], "scr": c.get("scr")} for c in chosen]
     jobs = min(jobs or common.JOBS, max(1, len(todo)))
     if jobs <= 1:
         return [_in_child(j) for j in todo]
@@ -1436,6 +1530,7 @@ def build_traces(chosen, results, rep):
 
     nsteps = 0
     slow = {}
+    nscr = [0, 0]
     for case, out in zip(chosen, results):
         w = case["w"]
         if "machinery" in out:
@@ -1451,12 +1546,17 @@ def build_traces(chosen, results, rep):
             nsteps += 1
             call = call_name(c["e"], c["s"], c["v"])
             slow[(w, call)] = max(slow.get((w, call), 0.0), c["wall"])
-            info = {"world": w, "word": case["word"], "steps": case["steps"], "step": i + 1, "call": call}
+            info = {"world": w, "word": case["word"], "steps": case["steps"], "scr": case.get("scr"), "step": i + 1, "call": call}
             d0 = [[j + 1, cls(w, b)] for j, (a, b) in enumerate(zip(prev, c["before"])) if a != b]
             d1 = [[j + 1, cls(w, b)] for j, (a, b) in enumerate(zip(c["before"], c["after"])) if a != b]
             recs.append({"op": "call", "e": c["e"], "s": c["s"], "v": c["v"], "d0": d0, "d1": d1, "res": cls(w, "r" + c["res"]),
                          "err": 1 if c["err"] else 0, "fok": c["fok"], "cur": c["cur"]})
             idx.append((case, i))
+            if "scr" in c:
+                recs.append({"op": "scribble"})
+                idx.append((case, i))
+                nscr[0] += c["scr"][0]
+                nscr[1] += c["scr"][1]
             prev = c["after"]
             # ---- direction A: the schedule as the specification printed it
             if c["err"]:
@@ -1476,6 +1576,7 @@ def build_traces(chosen, results, rep):
                 rep.violation("A:FileDiffers", call, dict(info, note="output file does not hold the returned value to the written precision"))
                 okA = False
         case["_okA"] = okA
+    rep.chk.extra["scribbled_result_arrays"] = {"overwritten": nscr[0], "left_alone_aliasing_tracked_object": nscr[1]}
     rep.chk.extra["slowest_calls_s"] = {f"{k[0]}:{k[1]}": v for k, v in sorted(slow.items(), key=lambda kv: -kv[1])[:12]}
     return traces, index, nsteps
 
@@ -1514,6 +1615,8 @@ def corrupt_one_field(w, header, recs):
     for i, r in enumerate(recs):
         if r["op"] == "begin":
             sess += 1
+            continue
+        if r["op"] != "call":
             continue
         role = REG[r["e"] - 1]["role"]
         key = (r["e"], r["s"], r["v"])
@@ -1603,7 +1706,7 @@ def run(tier, replay=None):
             case = common.load_replay(replay)["case"]
             w = case["world"]
             setup(tier, [w], tmp)
-            out = _in_child({"sid": 0, "w": w, "steps": case["steps"]})
+            out = _in_child({"sid": 0, "w": w, "steps": case["steps"], "scr": case.get("scr")})
             names = [o[0] for o in OBJS[w]]
             print("schedule:", [call_name(*c) for c in case["steps"]])
             for c in out.get("calls", []):
@@ -1645,7 +1748,7 @@ def run(tier, replay=None):
                 badcases.add(id(case))
                 c = case["steps"][i] if i is not None else None
                 call = call_name(*c) if c else "begin"
-                rep.violation("trace:" + clause, call, {"world": w, "word": case["word"], "steps": case["steps"],
+                rep.violation("trace:" + clause, call, {"world": w, "word": case["word"], "steps": case["steps"], "scr": case.get("scr"),
                                                         "step": (i + 1) if i is not None else 0, "call": call})
         covered = set()
         for case in chosen:
